@@ -448,6 +448,7 @@ def SCHEMA_GENERATORS(src, attempt, problems):
             ('GenStorages.v', lambda: __import__('translate_methods').gen_storages(src, attempt)),
             ('GenFixint.v', lambda: __import__('translate_methods').gen_fixint(src, attempt)),
             ('GenEntryPoints.v', lambda: __import__('translate_methods').gen_entry_points(src, attempt, __import__('translate').match_template, __import__('rustexpr').tokenize)),
+            ('GenSerEntry.v', lambda: __import__('translate_methods').gen_ser_entry(src, attempt, __import__('translate').match_template, __import__('rustexpr').tokenize)),
             ('GenIoReaders.v', lambda: __import__('translate_methods').gen_io_readers(src, attempt, __import__('translate').match_template, __import__('rustexpr').tokenize))]
 
 
